@@ -69,8 +69,11 @@ func LocationMethodRules(p *core.Prog, r *core.Report, methods ...string) {
 					want := identityShortcuts[m]
 					ok := false
 					if want != "" {
-						for mm := par[ast.Node(rs)]; mm != nil; mm = par[mm] {
-							if is, isIf := mm.(*ast.IfStmt); isIf && is.Init == nil && types.ExprString(ast.Unparen(is.Cond)) == want && is.Else == nil {
+						// inside the then-branch of `if <identity condition>` (an else branch, or an else-if
+						// chain such as a tagless switch spells out, does not change what the then-branch means)
+						var child ast.Node = rs
+						for mm := par[ast.Node(rs)]; mm != nil; child, mm = mm, par[mm] {
+							if is, isIf := mm.(*ast.IfStmt); isIf && is.Init == nil && types.ExprString(ast.Unparen(is.Cond)) == want && child == ast.Node(is.Body) {
 								ok = true
 							}
 						}
